@@ -340,7 +340,7 @@ MANIFEST = {
     "text": ("Theorems in coq/Properties/C10.v, closed under the global context: in_range (every call sequence with positive bounds, "
              "any ids/bounds/label changes, any oracle, from any state satisfying the representation invariant returns values below the bound and never panics), "
              "robust_change_truncates, attempt_prefix, exhaustive_after_change, exhaustive (every window of prod(bounds) consecutive attempts enumerates every combination exactly once, any depth/bounds/start), "
-             "fresh_entry, bounded_wait. The model is tied to distsys/fairness.go by running both on the same generated call sequences on every run; "
+             "fresh_entry, bounded_wait, each_combination_exactly_once (counting form: every combination occurs at exactly one position of each window of P attempts). The model is tied to distsys/fairness.go by running both on the same generated call sequences on every run; "
              "an implementation-side oracle checks range and window-distinctness directly on the Go outputs."),
     "level_note": ("Trusted: Coq kernel; the hand-written model (tie = differential testing, so a code change is caught only if a generated sequence reaches it: "
                    "300 quick / 6000 thorough sequences incl. malformed ones); rand.Uint32 as oracle. The generated-code side (either -> switch, with -> SelectElement) is not part of this check."),
